@@ -110,6 +110,23 @@ func genFrame(r *gen.RNG, size int) wireFrame {
 		}
 		b, fm := ref.Encode(a)
 		return wireFrame{Bytes: b, Kind: "ref", Type: t, FM: fm}
+	case k < 15: // a valid body under a flag nibble the type does not use (PUBLISH: any, incl. QoS bits 11)
+		t := gen.AllTypes[r.Intn(len(gen.AllTypes))]
+		if r.Bool() {
+			t = ref.TPublish
+		}
+		a := gen.Packet(r, t, gen.RandomMask(r, t), gen.Small, wfDomain)
+		b, _ := ref.Encode(a)
+		h, _ := ref.ParseHeader(b)
+		body := b[h.HdrLen:]
+		fl := byte(r.Intn(16))
+		if t == ref.TPublish {
+			fl = fl&9 | 6 // QoS bits 11, body laid out without packet identifier
+			if a.QoS() != 0 {
+				fl = byte(r.Intn(16))
+			}
+		}
+		return wireFrame{Bytes: ref.Reframe(byte(t)<<4|fl, body), Kind: "odd-flags", Type: t}
 	case k < 16: // remaining length zero
 		t := gen.Pick(r, ref.TPingReq, ref.TPingResp, ref.TDisconnect, ref.TAuth, ref.TPingReq, ref.TConnAck, ref.TPublish, ref.TSubscribe)
 		return wireFrame{Bytes: []byte{byte(t)<<4 | ref.ReservedFlags(t), 0}, Kind: "zero-remlen", Type: t}
